@@ -33,6 +33,8 @@ class Future(IBlockingDeref[T], IPending):
         try:
             return self._future.result(timeout=timeout)
         except _TimeoutError:
+            if self._future.done():
+                return self._future.result()
             return timeout_val
 
     def done(self) -> bool:
